@@ -1326,3 +1326,64 @@ func TestPacketGrammar(t *testing.T) {
 	})
 	core.RunSharded(t, ID, 320, 12000, g, Check)
 }
+
+// TestHTBlockTails: the end of an HT clean-up segment holds the Scup field (last byte and the low
+// nibble of the one before) and, in front of it, the ends of the MEL and VLC streams growing
+// towards each other. For the single-block HTJ2K pool streams every value of the last two bytes
+// of the code-block is enumerated, with the bytes in front of them left alone, set to FF FF
+// (a MEL stream of all-ones: the longest runs, the highest MEL state) or to 00 00.
+func TestHTBlockTails(t *testing.T) {
+	shard, shards := core.EnvInt("VERIF_SHARD", 0), max(1, core.EnvInt("VERIF_SHARDS", 1))
+	n := 0
+	for _, name := range []string{"htj2k-block32", "htj2k-block64"} {
+		it := byName[name]
+		if it == nil {
+			panic("harness: pool stream " + name + " missing")
+		}
+		end := len(it.Data) - 2 // in front of EOC
+		if end < 8 || it.Data[end] != 0xFF || it.Data[end+1] != 0xD9 {
+			panic("harness: " + name + " does not end in EOC")
+		}
+		step := 1
+		if !core.Thorough() {
+			step = 1
+		}
+		for pre := 0; pre < 5; pre++ {
+			if !core.Thorough() && (pre == 2 || pre == 4) {
+				continue
+			}
+			for v := 0; v < 65536; v += step {
+				n++
+				if n%shards != shard {
+					continue
+				}
+				in := append([]byte(nil), it.Data...)
+				switch pre {
+				case 1:
+					in[end-4], in[end-3] = 0xFF, 0xFF
+				case 2:
+					in[end-4], in[end-3] = 0, 0
+				case 3:
+					for k := 3; k <= 10 && end-k > 0; k++ {
+						in[end-k] = 0xFF
+					}
+				case 4:
+					in[end-4], in[end-3] = 0x7F, 0xFF
+				}
+				in[end-2], in[end-1] = byte(v>>8), byte(v)
+				inf := it.Info
+				e := it.Entries[(n/shards)%2]
+				c := &Case{Entry: e, Parent: it.Name, Muts: []string{fmt.Sprintf("httail:%d:%04x", pre, v)}, Input: in}
+				if e == "codec:201" {
+					c.Info = &inf
+				}
+				o := Check(c)
+				if o.Fail != nil {
+					core.Eval(t, ID, "exhaustive", c, Check)
+				}
+				core.RecordLight(uint64(n)<<8|9, o.NonTrivial, "enum-httail")
+			}
+		}
+	}
+	core.ExhaustiveDone("all 65536 values of the last two bytes of a single HT code-block (32x32, 64x64) x 5 settings of the bytes in front", int64(n))
+}
